@@ -305,10 +305,69 @@ def rule_h(repo, chk):
            'no equality / is_relative_to / membership in (p, *p.parents) in calculate_to_path')
 
 
+def rule_i(repo, chk):
+    chk.clause('C07.i', 'original text is carried, not rewritten: in refactoring/extract.py a string that contains text taken from the file (a leaf\'s '
+                        '.prefix, get_code(), split_lines of those, and what is joined/concatenated from them) is never passed through a '
+                        'rewriting string method (replace, strip*, lower/upper, expandtabs, translate, dedent) - generated code may be adapted, '
+                        'the user\'s comments, blank lines and line endings may not')
+    rewriting = {'replace', 'strip', 'lstrip', 'rstrip', 'lower', 'upper', 'expandtabs', 'translate', 'title', 'capitalize', 'swapcase', 'casefold'}
+    n = 0
+    n_tainted = 0
+    for q, f in sorted(repo.module(EXT).defs.items()):
+        if not isinstance(f, FUNC_TYPES):
+            continue
+        tainted = set()
+
+        def is_orig(e, tainted=tainted):
+            if isinstance(e, ast.Attribute) and e.attr == 'prefix':
+                return True
+            if isinstance(e, ast.Call) and call_name(e) == 'get_code':
+                return True
+            if isinstance(e, ast.Name) and e.id in tainted:
+                return True
+            if isinstance(e, ast.Call) and call_name(e) in ('split_lines', 'join', 'list') and any(is_orig(a) for a in e.args):
+                return True
+            if isinstance(e, ast.BinOp) and isinstance(e.op, ast.Add):
+                return is_orig(e.left) or is_orig(e.right)
+            if isinstance(e, ast.Subscript):
+                return is_orig(e.value)
+            if isinstance(e, (ast.GeneratorExp, ast.ListComp)):
+                return is_orig(e.elt) or any(is_orig(g.iter) for g in e.generators)
+            return False
+        changed = True
+        while changed:
+            changed = False
+            for a in stmts_in(f, ast.Assign):
+                for t in a.targets:
+                    for nm in ([t] if isinstance(t, ast.Name) else [x for x in ast.walk(t) if isinstance(x, ast.Name) and isinstance(x.ctx, ast.Store)]):
+                        if nm.id not in tainted and is_orig(a.value):
+                            tainted.add(nm.id)
+                            changed = True
+        n_tainted += len(tainted)
+        for c in own_nodes(f):
+            if isinstance(c, ast.Call) and isinstance(c.func, ast.Attribute) and is_orig(c.func.value):
+                n += 1
+                key = (q, norm(c))
+                if c.func.attr in rewriting or call_name(c) == 'dedent':
+                    if key in TRIAGED_REWRITE:
+                        chk.ob('C07.i', True, c, '`%s` in %s: triaged (%s)' % (short(c, 60), q, TRIAGED_REWRITE[key]))
+                    else:
+                        chk.ob('C07.i', False, c, 'text taken from the file is not rewritten by `%s` in %s' % (short(c, 60), q),
+                               'a rewriting string method is applied to original text (comments, blank lines, line endings would change)',
+                               key='rewrite|%s|%s' % key)
+                else:
+                    chk.ob('C07.i', True, c, '`%s` reads original text without rewriting it' % short(c, 50))
+    chk.notes['C07.i method calls on original text'] = n
+    chk.floor('C07.i', n_tainted, 4, '(locals of extract.py that hold text taken from the file)')
+
+
+TRIAGED_REWRITE = {}
+
+
 def describe(chk):
     chk.undecided('that difflib\'s output applies cleanly and that parso\'s refactor preserves all bytes outside the rewritten nodes (library behaviour); '
                   'which nodes a refactoring rewrites')
     chk.assume('an attribute call .rename(x)/.replace(x) with one argument on an unresolved receiver is a pathlib rename')
 
 
-RULES = [('C07.a', rule_a), ('C07.b', rule_b), ('C07.c', rule_c), ('C07.d', rule_d), ('C07.e', rule_e), ('C07.f', rule_f), ('C07.g', rule_g), ('C07.h', rule_h)]
+RULES = [('C07.a', rule_a), ('C07.b', rule_b), ('C07.c', rule_c), ('C07.d', rule_d), ('C07.e', rule_e), ('C07.f', rule_f), ('C07.g', rule_g), ('C07.h', rule_h), ('C07.i', rule_i)]
